@@ -312,11 +312,20 @@ def run_world(spec, scratch):
 
     sys.stdout.flush()
     sys.stderr.flush()
+    rank_hs = spec.get('rank_hashseeds')
     kids = []
     for r in range(P):
         c2p_r, c2p_w = os.pipe()
         p2c_r, p2c_w = os.pipe()
-        pid = os.fork()
+        hs_r = rank_hs[r] if rank_hs else None
+        if hs_r is not None and str(hs_r) != os.environ.get('PYTHONHASHSEED', '0'):
+            # this rank's interpreter uses another string-hash secret: forked by a helper zygote
+            from . import helpers
+            pid = helpers.remote_fork(int(hs_r), r, P, p2c_r, c2p_w, spec, scratch, pkgdir)
+            remote = True
+        else:
+            pid = os.fork()
+            remote = False
         if pid == 0:
             try:
                 os.close(c2p_r)
@@ -330,7 +339,7 @@ def run_world(spec, scratch):
         os.close(c2p_w)
         os.close(p2c_r)
         kids.append(dict(pid=pid, r=c2p_r, w=p2c_w, state='ready', ncoll=0, pending=None,
-                         status=None, info=None, nev=0))
+                         status=None, info=None, nev=0, remote=remote))
     colls = {}
     log = hashlib.sha256()
     choices, coins, trace = [], [], []
@@ -444,10 +453,11 @@ def run_world(spec, scratch):
                     os.kill(k['pid'], signal.SIGKILL)
                 except Exception:
                     pass
-            try:
-                os.waitpid(k['pid'], 0)
-            except Exception:
-                pass
+            if not k.get('remote'):
+                try:
+                    os.waitpid(k['pid'], 0)
+                except Exception:
+                    pass
             os.close(k['r'])
             os.close(k['w'])
     red = hashlib.sha256()
